@@ -428,6 +428,14 @@ impl Monitor for C17 {
                 }
             }
         }
+        // every category / block / name-character escape in the XSD dialect (none of them is an XPath
+        // extension): bare, complemented form included, and inside a class
+        if w.shard == 0 || !w.quick() {
+            for e in super::unicodeprops::all_escapes() {
+                emit(xsd_case(&format!("a{}c", e), "", "abc"));
+                emit(xsd_case(&format!("[{}x-z]+", e), "i", "xyz"));
+            }
+        }
         J::obj().with("random_patterns_this_shard", J::u(n))
     }
     fn corpus(&self) -> Vec<Case> {
@@ -687,7 +695,27 @@ impl Monitor for C20 {
         let mut cfg = GenCfg::std(&['a', 'b', 'a', 'b', 'A', '\n', 'x', '\u{e9}']);
         cfg.props = false;
         for k in 0..n {
-            let ast = if k % 4 <= 1 { gen_shortcut(&mut rng, &cfg) } else { gen_pattern(&mut rng, &cfg) };
+            let ast = if k % 16 == 7 {
+                // a bounded loop that may run zero times over alternatives of different lengths: only
+                // the path that re-does an earlier iteration and then uses all of them matches
+                let word = |rng: &mut Rng, n: usize| -> Node { Node::Cat((0..n).map(|_| Node::Char(*rng.pick(&['a', 'b']))).collect()).normalize() };
+                let mut alts = vec![word(&mut rng, 1), word(&mut rng, 2)];
+                if rng.chance(1, 3) {
+                    alts.push(word(&mut rng, 1));
+                }
+                let m = 2 + rng.below(2);
+                let body = Node::NcGroup(Box::new(Node::Alt(alts)));
+                let mut v = vec![Node::Repeat { body: Box::new(body), min: 0, max: Some(m), greedy: true, spell: 0 }, Node::Char(*rng.pick(&['x', 'a', 'b']))];
+                if rng.chance(1, 2) {
+                    v.insert(0, Node::Bol);
+                    v.push(Node::Eol);
+                }
+                Node::Cat(v)
+            } else if k % 4 <= 1 {
+                gen_shortcut(&mut rng, &cfg)
+            } else {
+                gen_pattern(&mut rng, &cfg)
+            };
             let size = ast.size();
             let fl = FLAG_SUBSETS[rng.below(FLAG_SUBSETS.len())];
             for _ in 0..2 {
